@@ -18,7 +18,7 @@ from sympy.core.function import AppliedUndef
 
 from ..core import AnalysisError, Report
 from ..fx import Closure, Interp, Model, Opaque, RaisedInCode, UFunc, Unsupported, WholeArr
-from ..index import get_index
+from ..index import const_value, dotted, get_index
 from ..kernels import read_config_defaults, std_overrides
 from ..rk import order_conditions, stability_function
 
@@ -590,6 +590,146 @@ def _adaptive_canon(r, dt_opt):
 
 
 # ----------------------------------------------------------------------------
+
+# ----------------------------------------------------------------------------
+# convergence measure of the fixed-point iterations
+# ----------------------------------------------------------------------------
+def _measure_term(e: ast.AST, dname: str, d):
+    """sympy term of the per-cell contribution to the error for diff = x + i*y"""
+    if isinstance(e, ast.Constant) and isinstance(e.value, (int, float)):
+        return sp.nsimplify(e.value, rational=True)
+    if isinstance(e, ast.Name):
+        if e.id == dname:
+            return d
+        raise Unsupported(f"name `{e.id}` in the convergence measure")
+    if isinstance(e, ast.Attribute):
+        if e.attr == "real":
+            return sp.re(_measure_term(e.value, dname, d))
+        if e.attr == "imag":
+            return sp.im(_measure_term(e.value, dname, d))
+        raise Unsupported(f"attribute .{e.attr} in the convergence measure")
+    if isinstance(e, ast.BinOp):
+        l, r = _measure_term(e.left, dname, d), _measure_term(e.right, dname, d)
+        if isinstance(e.op, ast.Mult):
+            return l * r
+        if isinstance(e.op, ast.Add):
+            return l + r
+        if isinstance(e.op, ast.Sub):
+            return l - r
+        if isinstance(e.op, ast.Pow):
+            return l**r
+        if isinstance(e.op, ast.Div):
+            return l / r
+    if isinstance(e, ast.UnaryOp) and isinstance(e.op, ast.USub):
+        return -_measure_term(e.operand, dname, d)
+    if isinstance(e, ast.Call):
+        fn = dotted(e.func).split(".")[-1]
+        if fn in ("conj", "conjugate"):
+            arg = e.args[0] if e.args else e.func.value
+            return sp.conjugate(_measure_term(arg, dname, d))
+        if fn in ("abs", "absolute") and len(e.args) == 1:
+            return sp.Abs(_measure_term(e.args[0], dname, d))
+        if fn in ("real",) and len(e.args) == 1:
+            return sp.re(_measure_term(e.args[0], dname, d))
+        if fn in ("float",) and len(e.args) == 1:
+            return _measure_term(e.args[0], dname, d)
+    raise Unsupported(f"`{ast.unparse(e)[:60]}` in the convergence measure")
+
+
+def check_convergence_measure(rep: Report, ix):
+    """the fixed-point iterations stop when `err < maxerror**2`; `err` must be the mean of the squared
+    modulus |new - previous|^2 of the change of the iterate -- positive definite for complex data too
+    (a measure such as Re(diff*diff) = x^2 - y^2 goes negative and stops the iteration at once)"""
+    sites = [
+        ("pde/solvers/implicit.py", "ImplicitSolver._make_single_step_fixed_dt_deterministic.implicit_step"),
+        ("pde/solvers/implicit.py", "ImplicitSolver._make_single_step_fixed_dt_stochastic.implicit_step"),
+        ("pde/solvers/crank_nicolson.py", "CrankNicolsonSolver._make_single_step_fixed_dt.crank_nicolson_step"),
+    ]
+    x, y = sp.symbols("x y", real=True)
+    d = x + sp.I * y
+    n = 0
+    for rel, qn in sites:
+        f = ix.func(rel, qn)
+        rep.saw("functions", f.ref)
+        # the loop that can `break` on a comparison  <err> < <tolerance>
+        for loop in [l for l in ast.walk(f.node) if isinstance(l, ast.For)]:
+            tests = [t for t in ast.walk(loop) if isinstance(t, ast.If) and any(isinstance(b, ast.Break) for b in t.body) and isinstance(t.test, ast.Compare)]
+            tests = [t for t in tests if _owner_loop(loop, t)]
+            if not tests:
+                continue
+            if len(tests) != 1:
+                raise AnalysisError(f"{f.ref}: several break conditions in the iteration loop")
+            t = tests[0].test
+            if not (len(t.ops) == 1 and isinstance(t.ops[0], (ast.Lt, ast.LtE)) and isinstance(t.left, ast.Name) and isinstance(t.comparators[0], ast.Name)):
+                raise AnalysisError(f"{f.ref}: break condition `{ast.unparse(t)}` is not `<err> < <tolerance>`")
+            err, tol = t.left.id, t.comparators[0].id
+            n += 1
+            # accumulation of err inside the loop
+            adds = [a for a in ast.walk(loop) if isinstance(a, ast.AugAssign) and isinstance(a.target, ast.Name) and a.target.id == err and isinstance(a.op, ast.Add)]
+            inits = [a for a in ast.walk(loop) if isinstance(a, ast.Assign) and any(isinstance(tt, ast.Name) and tt.id == err for tt in a.targets)]
+            divs = [a for a in ast.walk(loop) if isinstance(a, ast.AugAssign) and isinstance(a.target, ast.Name) and a.target.id == err and isinstance(a.op, ast.Div)]
+            if len(adds) != 1 or len(inits) != 1 or const_value(inits[0].value) not in (0, 0.0):
+                raise AnalysisError(f"{f.ref}: the error `{err}` is not accumulated as `{err} = 0; {err} += term` (found {len(inits)} initialisations, {len(adds)} accumulations)")
+            # the difference the term is built from
+            inner = [l2 for l2 in ast.walk(loop) if isinstance(l2, ast.For) and any(a is adds[0] for a in ast.walk(l2)) and l2 is not loop]
+            if len(inner) != 1:
+                raise AnalysisError(f"{f.ref}: expected one inner loop over the cells accumulating `{err}`")
+            ddefs = [a for a in ast.walk(inner[0]) if isinstance(a, (ast.Assign, ast.AnnAssign)) and isinstance(a.targets[0] if isinstance(a, ast.Assign) else a.target, ast.Name)]
+            if len(ddefs) != 1:
+                raise AnalysisError(f"{f.ref}: expected one definition of the per-cell difference in the inner loop")
+            dn = (ddefs[0].targets[0] if isinstance(ddefs[0], ast.Assign) else ddefs[0].target).id
+            dv = ddefs[0].value
+            ok_diff = isinstance(dv, ast.BinOp) and isinstance(dv.op, ast.Sub)
+            bases = []
+            if ok_diff:
+                for side in (dv.left, dv.right):
+                    b = side
+                    while isinstance(b, (ast.Subscript, ast.Attribute)):
+                        b = b.value
+                    bases.append(b.id if isinstance(b, ast.Name) else None)
+            # (new iterate, previous iterate): one array is overwritten by the update, the other holds its copy taken before
+            upd = [a for a in loop.body if isinstance(a, ast.Assign) and isinstance(a.targets[0], ast.Subscript) and isinstance(a.targets[0].value, ast.Name)]
+            written = [a.targets[0].value.id for a in upd]
+            copies = [(a.targets[0].value.id, a.value.id) for a in upd if isinstance(a.value, ast.Name)]
+            ok_pair = ok_diff and len(set(bases)) == 2 and None not in bases and any({c[0], c[1]} == set(bases) and written.index(c[0]) < max(i for i, w in enumerate(written) if w == c[1]) for c in copies if c[1] in written)
+            rep.oblige(f"{qn}: error is built from (new iterate - previous iterate)", ok_pair, {"difference": ast.unparse(dv), "stores in the loop": written})
+            if not ok_pair:
+                rep.violation("C06.convergence-measure", f"{f.ref}::difference", f"the convergence test does not compare the new iterate with the copy taken before the update: `{dn} = {ast.unparse(dv)}` (stores in the loop: {written})", line=ddefs[0].lineno)
+            try:
+                term = sp.simplify(sp.expand(_measure_term(adds[0].value, dn, d)))
+            except Unsupported as e:
+                raise AnalysisError(f"{f.ref}: {e}") from e
+            want = x**2 + y**2
+            ok = sp.simplify(term - want) == 0
+            rep.oblige(f"{qn}: per-cell error term = |diff|^2 for complex diff", ok, {"term": ast.unparse(adds[0].value), "for diff = x + i y": str(term)})
+            if not ok:
+                rep.violation(
+                    "C06.convergence-measure",
+                    f"{f.ref}::term",
+                    f"the error accumulated for the convergence test is `{ast.unparse(adds[0].value)}`, which for diff = x + i*y equals `{term}` instead of the squared modulus x**2 + y**2: "
+                    "for complex fields it is not positive definite, so the fixed-point iteration stops although the iterate still changes and the step is not the implicit scheme",
+                    line=adds[0].lineno,
+                )
+            # mean and squared tolerance
+            ok_mean = len(divs) == 1 and ast.unparse(divs[0].value).endswith(".size")
+            tdefs = [a for a in ast.walk(f.parent.node if f.parent else f.node) if isinstance(a, ast.Assign) and any(isinstance(tt, ast.Name) and tt.id == tol for tt in a.targets)]
+            ok_tol = len(tdefs) == 1 and isinstance(tdefs[0].value, ast.BinOp) and isinstance(tdefs[0].value.op, ast.Pow) and const_value(tdefs[0].value.right) == 2 and ast.unparse(tdefs[0].value.left).endswith("maxerror")
+            rep.oblige(f"{qn}: mean squared change compared with maxerror**2", ok_mean and ok_tol, {"normalisation": [ast.unparse(v) for v in divs], "tolerance": [ast.unparse(v) for v in tdefs]})
+            if not (ok_mean and ok_tol):
+                rep.violation("C06.convergence-measure", f"{f.ref}::scale", f"the squared error is not a mean over the cells compared with maxerror**2 (normalisation {[ast.unparse(v) for v in divs]}, tolerance {[ast.unparse(v) for v in tdefs]})", line=t.lineno)
+    rep.floor("fixed-point iteration loops with a convergence test", n, 3)
+
+
+def _owner_loop(loop: ast.For, node: ast.AST) -> bool:
+    """is `loop` the innermost for-loop around node"""
+    best = None
+    for l in ast.walk(loop):
+        if isinstance(l, ast.For) and any(x is node for x in ast.walk(l)):
+            if best is None or any(x is l for x in ast.walk(best)):
+                best = l
+    return best is loop
+
+
 def check(tier: str) -> Report:
     rep = Report("C06", tier, "proof", "tableau extraction by abstract interpretation with an uninterpreted right-hand side; rooted-tree order conditions; fixed-point solution of implicit iterations; sibling comparison of stepping loops")
     rep.explanation = (
@@ -670,6 +810,7 @@ def check(tier: str) -> Report:
     check_implicit(rep, ix, "crank-nicolson", "pde/solvers/crank_nicolson.py", "CrankNicolsonSolver", "_make_single_step_fixed_dt", (1 + Z / 2) / (1 - Z / 2))
     check_adams_bashforth(rep, ix)
     check_adaptive(rep, ix)
+    check_convergence_measure(rep, ix)
     rep.floor("stepping constructs analysed", len(rep.analysed.get("steppers", [])) + len(rep.analysed.get("adaptive loops", [])), 16)
     rep.assumptions += [
         "post-step hooks are the identity on the state (default)",
